@@ -24,7 +24,7 @@ func init() {
 				"term.Type() == safeWriterType, and executeList prints/renders a value only under !safeWriter; (C01.last) a SafeWriter command must be last: every later command is evaluated only " +
 				"under !safeWriter of the previous one, the other branch being no-return; (C01.swap) the output destination lives in exactly one place, escapeeWriter.Writer — no other field is " +
 				"assigned an io.Writer, wrappers holding one are transient locals — Runtime.escapeeWriter is assigned only in the pool constructor and escapeeWriter.set only in Execute from t.set; " +
-				"(C01.default) NewSet installs text/template.HTMLEscape, WithSafeWriter is the only other writer of Set.escapee, and safeHtml/safeJs/raw/unsafe are bound to HTMLEscape/JSEscape/unsafePrinter. (C01.sink, continued) the JSON renderer writes raw by design; the HTML escaping of its encoder is never switched off.",
+				"(C01.default) NewSet installs text/template.HTMLEscape, WithSafeWriter is the only other writer of Set.escapee, and safeHtml/safeJs/raw/unsafe are bound to HTMLEscape/JSEscape/unsafePrinter. (C01.sink, continued) the JSON renderer writes raw by design; the HTML escaping of its encoder is never switched off. (C01.default, continued) a built-in's value may be held in a local defined once.",
 			NotDecided:  "that template.HTMLEscape escapes the five characters and fastprinter forwards every chunk to the writer it was given (trusted); Renderer values (writeJson, hiddenBool) write raw by documented design (reported as notes, not violations).",
 			Assumptions: []string{"text/template.HTMLEscape/JSEscape and fastprinter behave as documented"},
 			Trusted:     commonTrusted,
@@ -786,8 +786,14 @@ func c01default(c *an.Ctx) {
 			if _, isWanted := want[k]; !isWanted {
 				return true
 			}
-			// reflect.ValueOf(SafeWriter(X))
-			if call, ok := an.Unparen(kv.Value).(*ast.CallExpr); ok && len(call.Args) == 1 {
+			// reflect.ValueOf(SafeWriter(X)), written in place or held in a local defined once
+			val := an.Unparen(kv.Value)
+			if id, isId := val.(*ast.Ident); isId {
+				if defs := an.LocalDefs(f, an.ObjOf(f.Info(), id)); len(defs) == 1 && defs[0] != nil {
+					val = an.Unparen(defs[0])
+				}
+			}
+			if call, ok := val.(*ast.CallExpr); ok && len(call.Args) == 1 {
 				found[k] = objName(call.Args[0])
 			}
 			return true
